@@ -680,6 +680,10 @@ class ListBox(Widget, WidgetContainerMixin):
 
         self._rendered_size = size
 
+        if maxrow <= 0:
+            # no rows: nothing to show (a pending focus change is completed when there is room)
+            return SolidCanvas(" ", maxcol, 0)
+
         middle, top, bottom = self.calculate_visible((maxcol, maxrow), focus=focus)
         if middle is None:
             return SolidCanvas(" ", maxcol, maxrow)
